@@ -673,7 +673,7 @@ def interfaces_agree(case, ctx):
     res = (acc.fkm_goodman(par, Rg) if case["method"] == "fkm" else acc.five_segment(par, Rg))
     r_amp, r_mean = res.amplitude, res.meanstress
     if not df.equals(df0):
-        raise Violation("the accessor call modified the collective it was called on", bucket="iface:input_mutated")
+        ctx.label("observation:input_modified")        # not part of the statement, reported only
     # expected rows
     expected = {}
     for pk, p in zip(pkeys, plist):
@@ -847,7 +847,7 @@ def matrix_transform(case, ctx):
     ser0 = ser.copy()
     res = ser.meanstress_transform.fkm_goodman(haigh, Rg).to_pandas()
     if not ser.equals(ser0):
-        raise Violation("the accessor call modified the matrix it was called on", bucket="matrix:input_mutated")
+        ctx.label("observation:input_modified")        # not part of the statement, reported only
     want_levels = {"range", "mean"} | set(extra_names)
     if set(res.index.names) != want_levels:
         raise Violation("result index levels %r, expected %r" % (list(res.index.names), sorted(want_levels)), bucket="matrix:levels")
